@@ -131,7 +131,12 @@ def strip_coq_comments(s):
 def forbidden_tokens():
     """grep of the whole development (comments stripped) for anything that would declare an axiom or weaken the kernel."""
     hits = []
+    # the development = every committed file (work in progress of a proof that is not committed yet is not part of it)
+    rc, out = sh(["git", "ls-files", "coq/theories"], cwd=VERIF)
+    tracked = set(os.path.basename(x) for x in out.split()) if rc == 0 and out.strip() else None
     for f in sorted(glob.glob(os.path.join(COQ, "theories", "*.v"))) + [os.path.join(COQ, "_CoqProject.base")]:
+        if tracked is not None and f.endswith(".v") and os.path.basename(f) not in tracked and os.path.basename(f) != "Generated.v":
+            continue
         body = strip_coq_comments(open(f).read())
         for m in FORBIDDEN.finditer(body):
             hits.append("%s: %s" % (os.path.basename(f), m.group(0)))
